@@ -335,5 +335,22 @@ def _guarded_by_presence(fn, bb, op):
 
 def site_key(fn, s):
     """ledger key of a panic-capable site: function | kind | operand descriptor, with closure ordinals removed
-    (they shift when an unrelated closure is added to or removed from the enclosing function)"""
-    return re.sub(r"\{closure#\d+\}", "{closure}", "%s|%s|%s" % (fn.name, s["kind"], descriptor(fn, s)))
+    (they shift when an unrelated closure is added to or removed from the enclosing function).  An explicit `panic!(..)` is
+    keyed by its owner only - the type whose method (or helper of whose method) contains it, or the module of a free
+    function - and counted: moving such a guard into a helper or rewording its message is not a new site, an additional
+    one beyond the reviewed count is."""
+    d = descriptor(fn, s)
+    if s["kind"] == "Call" and (d.startswith("panicking::panic_fmt(") or d.startswith("panicking::panic(") or d.startswith("panicking::panic_display(")):
+        return "%s|panic!" % panic_owner(fn)
+    return re.sub(r"\{closure#\d+\}", "{closure}", "%s|%s|%s" % (fn.name, s["kind"], d))
+
+
+def panic_owner(fn):
+    st = fn.j.get("self_ty")
+    if not st and fn.j.get("root"):
+        r = fn.facts.fns.get(fn.j["root"]) if hasattr(fn, "facts") else None
+        st = r.j.get("self_ty") if r is not None else None
+    if st:
+        return st.split("<")[0]
+    name = re.sub(r"(::\{closure#\d+\})+$", "", fn.name)
+    return name.rsplit("::", 1)[0] if "::" in name else name
